@@ -1,5 +1,6 @@
 (* C02: the expression parser builds the tree the precedence table prescribes.
-   For every expression tree over identifiers, literals, unary minus, NOT and the binary operators, the parser
+   For every expression tree over identifiers, literals, array elements / function calls with any number of arguments,
+   unary minus, NOT and the binary operators, the parser
    (Lang/Parse.v: descend / climb, precedence climbing with a one-token look-ahead), run on the tokens of the tree's
    minimally parenthesised rendering, returns that tree (columns aside) and stops in front of whatever follows. *)
 From BL Require Import Base.Prelude Base.Floats Base.Decimal Lang.Token Lang.Ast Mach.Func Lang.Parse.
@@ -133,10 +134,29 @@ Lemma mono_c f g vm p lhs st r : (f <= g)%nat -> climb f vm p lhs st = Ok r -> c
 Proof. induction 1 as [| g Hle IH]; [auto |]. intros H. apply (proj1 (proj2 (fuel_mono g))). exact (IH H). Qed.
 
 (* ---------- expression trees, their rendering, and the tree the parser must build ---------- *)
-Inductive ax := AId (i : ident) | ALit (l : literal) | ANeg (x : ax) | ANot (x : ax) | ABin (o : operator) (a b : ax).
+Inductive ax := AId (i : ident) | ALit (l : literal) | ANeg (x : ax) | ANot (x : ax) | ABin (o : operator) (a b : ax)
+              | ACall (i : ident) (args : list ax).        (* array element or function call: ID ( a1 , ... , an ), n >= 0 *)
+
+Section AxInd.
+Variable Q : ax -> Prop.
+Hypothesis Hid : forall i, Q (AId i).
+Hypothesis Hlit : forall l, Q (ALit l).
+Hypothesis Hneg : forall x, Q x -> Q (ANeg x).
+Hypothesis Hnot : forall x, Q x -> Q (ANot x).
+Hypothesis Hbin : forall o a b, Q a -> Q b -> Q (ABin o a b).
+Hypothesis Hcall : forall i args, Forall Q args -> Q (ACall i args).
+Fixpoint ax_ind2 (x : ax) : Q x :=
+  match x with
+  | AId i => Hid i | ALit l => Hlit l
+  | ANeg a => Hneg a (ax_ind2 a) | ANot a => Hnot a (ax_ind2 a)
+  | ABin o a b => Hbin o a b (ax_ind2 a) (ax_ind2 b)
+  | ACall i args => Hcall i args ((fix go (l : list ax) : Forall Q l :=
+                                     match l with [] => Forall_nil _ | y :: r => Forall_cons _ (ax_ind2 y) (go r) end) args)
+  end.
+End AxInd.
 
 Definition eprec (x : ax) : N :=
-  match x with AId _ | ALit _ => 100 | ANeg _ => 12 | ANot _ => 6 | ABin o _ _ => binary_prec o end.
+  match x with AId _ | ALit _ | ACall _ _ => 100 | ANeg _ => 12 | ANot _ => 6 | ABin o _ _ => binary_prec o end.
 
 Definition paren (ts : list token) : list token := TLParen :: ts ++ [TRParen].
 
@@ -151,7 +171,13 @@ Fixpoint raw (x : ax) : list token :=
   | ANot a => TOp ONot :: (if 6 + 1 <=? eprec a then raw a else paren (raw a))
   | ABin o l r => (if binary_prec o <=? eprec l then raw l else paren (raw l))
                   ++ TOp o :: (if binary_prec o + 1 <=? eprec r then raw r else paren (raw r))
+  | ACall i args =>
+      TIdent i :: TLParen ::
+      (fix commas (l : list ax) : list token :=
+         match l with [] => [] | [a] => raw a | a :: r => raw a ++ TComma :: commas r end) args ++ [TRParen]
   end.
+Definition commas : list ax -> list token :=
+  fix commas (l : list ax) : list token := match l with [] => [] | [a] => raw a | a :: r => raw a ++ TComma :: commas r end.
 
 Fixpoint strip (e : expr) : expr :=
   match e with
@@ -169,6 +195,7 @@ Fixpoint tree (x : ax) : expr :=
   | ANeg a => ENeg (0, 0) (tree a)
   | ANot a => ENot (0, 0) (tree a)
   | ABin o a b => match binop_of o with Some bo => EBin (0, 0) bo (tree a) (tree b) | None => EInt (0, 0) 0 end
+  | ACall i args => EArray (0, 0) i (map tree args)
   end.
 
 Fixpoint wf (x : ax) : Prop :=
@@ -177,6 +204,7 @@ Fixpoint wf (x : ax) : Prop :=
   | ALit l => exists e, parse_literal (0, 0) l = Ok e
   | ANeg a | ANot a => wf a
   | ABin o a b => o <> ONot /\ wf a /\ wf b
+  | ACall i args => (fix all (l : list ax) : Prop := match l with [] => True | y :: r => wf y /\ all r end) args
   end.
 
 (* what may follow a complete operand at level n: not an operator that binds stronger than n, not an opening parenthesis *)
@@ -306,6 +334,51 @@ Proof.
   intros g p Hd. rewrite descend_S. unfold pbind. rewrite E1. cbn [primary]. unfold pbind, pret. rewrite Hd, E3. reflexivity.
 Qed.
 
+Lemma mono_l f g vm st r : (f <= g)%nat -> expr_list f vm st = Ok r -> expr_list g vm st = Ok r.
+Proof. induction 1 as [| g Hle IH]; [auto |]. intros H. apply (proj2 (proj2 (fuel_mono g))). exact (IH H). Qed.
+
+Lemma maybe_yes st t r : rep st (t :: r) -> exists st', maybe t st = Ok (true, st') /\ rep st' r.
+Proof.
+  intros H. destruct (ppeek_rep st t r H) as (s1 & E1 & H1). destruct (pnext_rep s1 t r H1) as (s2 & E2 & H2 & _).
+  exists s2. split; [| exact H2]. unfold maybe, pbind. rewrite E1, token_eqb_refl, E2. reflexivity.
+Qed.
+
+Lemma maybe_no st t ts : rep st ts -> match ts with t' :: _ => token_eqb t' t = false | [] => True end ->
+  exists st', maybe t st = Ok (false, st') /\ rep st' ts.
+Proof.
+  intros H Hne. destruct ts as [| t' r].
+  - destruct (ppeek_nil st H) as (s1 & E1 & H1). exists s1. split; [| exact H1]. unfold maybe, pbind. rewrite E1. reflexivity.
+  - destruct (ppeek_rep st t' r H) as (s1 & E1 & H1). exists s1. split; [| exact H1]. unfold maybe, pbind. rewrite E1, Hne. reflexivity.
+Qed.
+
+(* ID ( ) *)
+Lemma descend_call0 st i rest : rep st (TIdent i :: TLParen :: TRParen :: rest) ->
+  exists c st3, rep st3 rest /\ forall g p, descend (S g) [] p st = climb g [] p (EArray c i []) st3.
+Proof.
+  intros Hr. destruct (pnext_rep st _ _ Hr) as (s1 & E1 & Hr1 & _). destruct (ppeek_rep s1 _ _ Hr1) as (s2 & E2 & Hr2).
+  destruct (expect_rep s2 _ _ Hr2) as (s3 & E3 & Hr3). destruct (maybe_yes s3 _ _ Hr3) as (s4 & E4 & Hr4).
+  exists (fst (pcol s1), snd (pcol s4)), s4. split; [exact Hr4 |]. intros g p.
+  rewrite descend_S. unfold pbind. rewrite E1. cbn [primary]. unfold pbind, pcolm. rewrite E2, E3, E4. reflexivity.
+Qed.
+
+(* ID ( a1 , ... , an ), n >= 1 *)
+Lemma descend_calln st i ts : rep st (TIdent i :: TLParen :: ts) ->
+  match ts with t' :: _ => token_eqb t' TRParen = false | [] => True end ->
+  exists (c : col) st1, rep st1 ts /\ forall es st2 rest, rep st2 (TRParen :: rest) ->
+    exists (c2 : col) st3, rep st3 rest /\ forall g p, expr_list g [] st1 = Ok (es, st2) ->
+      descend (S g) [] p st = climb g [] p (EArray (fst c, snd c2) i es) st3.
+Proof.
+  intros Hr Hne. destruct (pnext_rep st _ _ Hr) as (s1 & E1 & Hr1 & _). destruct (ppeek_rep s1 _ _ Hr1) as (s2 & E2 & Hr2).
+  destruct (expect_rep s2 _ _ Hr2) as (s3 & E3 & Hr3). destruct (maybe_no s3 TRParen ts Hr3 Hne) as (s4 & E4 & Hr4).
+  exists (pcol s1), s4. split; [exact Hr4 |]. intros es st2 rest Hr5. destruct (expect_rep st2 _ _ Hr5) as (s6 & E6 & Hr6).
+  exists (pcol s6), s6. split; [exact Hr6 |]. intros g p Hl.
+  rewrite descend_S. unfold pbind. rewrite E1. cbn [primary]. unfold pbind, pcolm, pret. rewrite E2, E3, E4, Hl, E6. reflexivity.
+Qed.
+
+Lemma expr_list_S g vm : expr_list (S g) vm =
+  (pdo e <~ descend g vm 0 ;; pdo more <~ maybe TComma ;; if more then (pdo l <~ expr_list g vm ;; pret (e :: l)) else pret [e]).
+Proof. reflexivity. Qed.
+
 (* ---------- the invariant of precedence climbing ---------- *)
 (* "descend p, started in front of the tokens of x followed by rest, behaves like the loop at level p that holds the tree of
    x and stands in front of rest" *)
@@ -338,12 +411,54 @@ Qed.
 Definition sub (n : N) (x : ax) : list token := if n <=? eprec x then raw x else paren (raw x).
 
 Lemma eprec_pos x : wf x -> 1 <= eprec x.
-Proof. destruct x as [i | l | a | a | o a b]; cbn; try lia. intros (Ho & _). destruct o; cbn; try lia. contradiction. Qed.
+Proof. destruct x as [i | l | a | a | o a b | i args]; cbn; try lia. intros (Ho & _). destruct o; cbn; try lia. contradiction. Qed.
 
-Theorem key : forall x, wf x ->
+Definition keyP (x : ax) : Prop := wf x ->
   forall p n rest st, p < n -> n <= eprec x -> lead_le n rest -> rep st (raw x ++ rest) -> like_climb p st x rest.
+
+Lemma raw_call i args : raw (ACall i args) = TIdent i :: TLParen :: commas args ++ [TRParen].
+Proof. reflexivity. Qed.
+
+Lemma wf_call i args : wf (ACall i args) -> Forall wf args.
+Proof. cbn [wf]. induction args as [| a r IH]; intros H; constructor; [exact (proj1 H) | exact (IH (proj2 H))]. Qed.
+
+Lemma raw_head : forall a, exists t ts, raw a = t :: ts /\ token_eqb t TRParen = false.
 Proof.
-  induction x as [i | l | a IH | a IH | o l IHl r IHr]; intros W p n rest st Hp Hn Hl Hr; cbn [raw app wf eprec] in *.
+  induction a as [i | l | a IH | a IH | o l r IHl IHr | i args _] using ax_ind2.
+  - exists (TIdent i), []. split; [reflexivity |]. destruct i; reflexivity.
+  - exists (TLit l), []. split; [reflexivity |]. destruct l; reflexivity.
+  - cbn [raw]. eexists. eexists. split; reflexivity.
+  - cbn [raw]. eexists. eexists. split; reflexivity.
+  - cbn [raw]. destruct (binary_prec o <=? eprec l).
+    + destruct IHl as (t & ts & -> & Ht). cbn [app]. eexists. eexists. split; [reflexivity | exact Ht].
+    + unfold paren. cbn [app]. eexists. eexists. split; reflexivity.
+  - rewrite raw_call. exists (TIdent i). eexists. split; [reflexivity |]. destruct i; reflexivity.
+Qed.
+
+(* a non-empty argument list: each argument is parsed at level 0, commas are consumed, the list stops at the parenthesis *)
+Lemma args_parse : forall args, args <> [] -> Forall keyP args -> Forall wf args ->
+  forall rest st, rep st (commas args ++ TRParen :: rest) ->
+  exists f es st', expr_list f [] st = Ok (es, st') /\ map strip es = map tree args /\ rep st' (TRParen :: rest).
+Proof.
+  induction args as [| a r IH]; [contradiction |]. intros _ HQ HW rest st Hr.
+  inversion HQ as [| ? ? Qa Qr]; subst. inversion HW as [| ? ? Wa Wr]; subst. destruct r as [| b r'].
+  - cbn [commas] in Hr.
+    destruct (like_operand 0 st a (TRParen :: rest) (Qa Wa 0 1 (TRParen :: rest) st ltac:(lia) (eprec_pos a Wa) I Hr) I) as (f & e & s2 & Hd & Hs & Hr2).
+    destruct (maybe_no s2 TComma _ Hr2 eq_refl) as (s3 & E3 & Hr3).
+    exists (S f), [e], s3. split; [| split; [cbn [map]; rewrite Hs; reflexivity | exact Hr3]].
+    rewrite expr_list_S. unfold pbind. rewrite Hd, E3. reflexivity.
+  - change (commas (a :: b :: r')) with (raw a ++ TComma :: commas (b :: r')) in Hr. rewrite <- app_assoc in Hr. cbn [app] in Hr.
+    destruct (like_operand 0 st a (TComma :: commas (b :: r') ++ TRParen :: rest) (Qa Wa 0 1 (TComma :: commas (b :: r') ++ TRParen :: rest) st ltac:(lia) (eprec_pos a Wa) I Hr) I) as (f & e & s2 & Hd & Hs & Hr2).
+    destruct (maybe_yes s2 _ _ Hr2) as (s3 & E3 & Hr3).
+    destruct (IH ltac:(discriminate) Qr Wr rest s3 Hr3) as (f1 & es & s4 & Hes & Hss & Hr4).
+    exists (S (Nat.max f f1)), (e :: es), s4. split; [| split; [cbn [map]; rewrite Hs, Hss; reflexivity | exact Hr4]].
+    rewrite expr_list_S. unfold pbind. rewrite (mono_d f _ _ _ _ _ (Nat.le_max_l f f1) Hd), E3, (mono_l f1 _ _ _ _ (Nat.le_max_r f f1) Hes). reflexivity.
+Qed.
+
+Theorem key : forall x, keyP x.
+Proof.
+  induction x as [i | l | a IH | a IH | o l r IHl IHr | i args IHargs] using ax_ind2; unfold keyP in *; intros W p n rest st Hp Hn Hl Hr;
+    [cbn [raw app wf eprec] in * .. | ].
   - (* identifier *)
     destruct (descend_ident st i rest Hr W (lead_le_mono _ _ _ Hn Hl)) as (c & s2 & Hr2 & Heq).
     exists (EUnary c i), s2. split; [reflexivity |]. split; [exact Hr2 |]. intros g res Hc. exists (S g). rewrite Heq. exact Hc.
@@ -390,18 +505,35 @@ Proof.
     exists (EBin c b l' r'), sr. split; [cbn [strip tree]; rewrite Hb, Hsl, Hsr; reflexivity |]. split; [exact Hrr |]. intros g res Hc.
     apply (Hkl (S (Nat.max fr g))). rewrite (Heq (Nat.max fr g) r' sr (mono_d fr _ _ _ _ _ (Nat.le_max_l fr g) Hd)).
     exact (mono_c g _ _ _ _ _ _ (Nat.le_max_r fr g) Hc).
+  - (* array element / function call *)
+    rewrite raw_call in Hr. cbn [app] in Hr. rewrite <- app_assoc in Hr. cbn [app] in Hr.
+    destruct args as [| a0 ar].
+    + cbn [commas app] in Hr. destruct (descend_call0 st i rest Hr) as (c & s3 & Hr3 & Heq).
+      exists (EArray c i []), s3. split; [reflexivity |]. split; [exact Hr3 |]. intros g res Hc. exists (S g). rewrite Heq. exact Hc.
+    + assert (Hhead : match commas (a0 :: ar) ++ TRParen :: rest with t' :: _ => token_eqb t' TRParen = false | [] => True end).
+      { destruct (raw_head a0) as (t & ts & Et & Ht). destruct ar; cbn [commas]; rewrite Et; cbn [app]; exact Ht. }
+      destruct (descend_calln st i _ Hr Hhead) as (c & s1 & Hr1 & Hstep).
+      destruct (args_parse (a0 :: ar) ltac:(discriminate) IHargs (wf_call i _ W) rest s1 Hr1) as (f & es & s2 & Hes & Hss & Hr2).
+      destruct (Hstep es s2 rest Hr2) as (c2 & s3 & Hr3 & Heq).
+      exists (EArray (fst c, snd c2) i es), s3. split; [cbn [strip tree]; rewrite Hss; reflexivity |]. split; [exact Hr3 |]. intros g res Hc.
+      exists (S (Nat.max f g)). rewrite (Heq (Nat.max f g) p (mono_l f _ _ _ _ (Nat.le_max_l f g) Hes)).
+      exact (mono_c g _ _ _ _ _ _ (Nat.le_max_r f g) Hc).
 Qed.
 
 Lemma raw_clean : forall x, forallb clean (raw x) = true.
 Proof.
   assert (Hp : forall ts, forallb clean ts = true -> forallb clean (paren ts) = true).
   { intros ts H. unfold paren. cbn [forallb]. rewrite forallb_app, H. reflexivity. }
-  induction x as [i | l | a IH | a IH | o l IHl r IHr]; cbn [raw]; try reflexivity.
-  - cbn [forallb]. destruct (12 + 1 <=? eprec a); [exact IH | exact (Hp _ IH)].
-  - cbn [forallb]. destruct (6 + 1 <=? eprec a); [exact IH | exact (Hp _ IH)].
-  - rewrite forallb_app. cbn [forallb].
+  induction x as [i | l | a IH | a IH | o l r IHl IHr | i args IHargs] using ax_ind2; try (cbn [raw]; reflexivity).
+  - cbn [raw forallb]. destruct (12 + 1 <=? eprec a); [exact IH | exact (Hp _ IH)].
+  - cbn [raw forallb]. destruct (6 + 1 <=? eprec a); [exact IH | exact (Hp _ IH)].
+  - cbn [raw]. rewrite forallb_app. cbn [forallb].
     assert (Ho : clean (TOp o) = true) by reflexivity. rewrite Ho.
     destruct (binary_prec o <=? eprec l), (binary_prec o + 1 <=? eprec r); rewrite ?IHl, ?IHr, ?(Hp _ IHl), ?(Hp _ IHr); reflexivity.
+  - rewrite raw_call. cbn [forallb]. assert (Hi : clean (TIdent i) = true) by reflexivity. rewrite Hi. cbn [andb].
+    rewrite forallb_app. cbn [forallb andb]. rewrite Bool.andb_true_r.
+    induction IHargs as [| a r Ha _ IHr]; [reflexivity |]. destruct r as [| b r']; [cbn [commas]; exact Ha |].
+    change (commas (a :: b :: r')) with (raw a ++ TComma :: commas (b :: r')). rewrite forallb_app, Ha. cbn [forallb andb]. exact IHr.
 Qed.
 
 (* THE THEOREM: the parser, started in front of the rendering of x followed by anything that cannot continue an expression,
@@ -441,5 +573,8 @@ Example renderings :
   /\ lex (s2l "NOT A=B") = Ok (None, TOp ONot :: TWs 1 :: raw (ABin OEq idA idB))
   /\ lex (s2l "A+B*C") = Ok (None, raw (ABin OPlus idA (ABin OMul idB idC)))
   /\ lex (s2l "(A+B)*C") = Ok (None, raw (ABin OMul (ABin OPlus idA idB) idC))
-  /\ wf (ABin OMinus (ABin OMinus idA idB) idC) /\ wf (ANeg (ABin OCaret two two)).
+  /\ lex (s2l "A(2,B+2)*FNX(C)-D()") = Ok (None, raw (ABin OMinus (ABin OMul (ACall (IPlain [65]) [two; ABin OPlus idB two]) (ACall (IPlain [70; 78; 88]) [idC]))
+                                                                         (ACall (IPlain [68]) [])))
+  /\ wf (ABin OMinus (ABin OMinus idA idB) idC) /\ wf (ANeg (ABin OCaret two two))
+  /\ wf (ABin OMul (ACall (IPlain [65]) [two; ABin OPlus idB two]) (ACall (IPlain [70; 78; 88]) [idC])).
 Proof. vm_compute. repeat split; try discriminate; eexists; reflexivity. Qed.
